@@ -477,7 +477,12 @@ func main() {
 }
 
 var cliArgs = []string{"-out=OUT", "-out", "-name=pkg", "-name=", "-debug", "-verbose", "-help", "-h", "-version", "-bogus", "--", "valid.grammar", "invalid.grammar", "missing.grammar", "adir", "valid.grammar/x", "-out=valid.grammar", "-name=if",
-	"-", "-x.grammar", "--name", "-debug=maybe", "-help=false", "-=x", "---", "-name=int"}
+	"-", "-x.grammar", "--name", "-debug=maybe", "-help=false", "-=x", "---", "-name=int",
+	// output locations on which the file system answers with something other than "does not exist": a symbolic link
+	// pointing at itself, a name of 300 bytes, a path below a regular file
+	"-out=loop", "-out=loop/sub", "-out=" + longName, "-out=invalid.grammar/below"}
+
+var longName = strings.Repeat("n", 300)
 
 // cli runs the real binary on every command line; specFor (may be nil) gives the text of valid.grammar for line i.
 func cli(r *ev.Run, lines [][]string, specFor map[int]string) {
@@ -503,6 +508,7 @@ func cli(r *ev.Run, lines [][]string, specFor map[int]string) {
 		dir := filepath.Join(tmp, fmt.Sprintf("run%d", i))
 		_ = os.MkdirAll(filepath.Join(dir, "OUT"), 0o755)
 		_ = os.MkdirAll(filepath.Join(dir, "adir"), 0o755)
+		_ = os.Symlink("loop", filepath.Join(dir, "loop"))
 		validText := "grammar demo ;\nNUM = /[0-9]+/ ;\nstart = NUM \"+\" NUM ;\n"
 		if t, ok := specFor[i]; ok {
 			validText = t
